@@ -181,6 +181,8 @@ class BaseCurve(Intface_BaseCurve):
         if self.ctrlpoints is None:
             raise ValueError
         if not isinstance(other, self.__class__):
+            if isinstance(other, (int, np.integer)):
+                other = Fraction(int(other))  # int / int is a float in python
             copied = copy(self)
             copied.ctrlpoints = [point / other for point in copied.ctrlpoints]
             return copied
@@ -195,7 +197,12 @@ class BaseCurve(Intface_BaseCurve):
             transweights = heavy.Operations.matrix_transformation(vectorb, vectorc)
             weights = np.dot(transweights, copyot.ctrlpoints)
             ctrlpts = np.dot(transctrlpts, copyse.ctrlpoints)
-            ctrlpts = [pti / wi for pti, wi in zip(ctrlpts, weights)]
+            # int / int is a float in python: keep integers exact
+            divisors = [
+                Fraction(int(wi)) if isinstance(wi, (int, np.integer)) else wi
+                for wi in weights
+            ]
+            ctrlpts = [pti / wi for pti, wi in zip(ctrlpts, divisors)]
             return self.__class__(vectorc, ctrlpts, weights)
 
         numa, dena = self.fraction()
@@ -214,6 +221,8 @@ class BaseCurve(Intface_BaseCurve):
         if self.weights is None:
             newcurve = self.__class__(tuple(self.knotvector))
             newcurve.weights = [copy(point) for point in self.ctrlpoints]
+            if isinstance(other, (int, np.integer)):
+                other = Fraction(int(other))  # int / int is a float in python
             newcurve.ctrlpoints = [other / w for w in newcurve.weights]
             return newcurve
         num, den = self.fraction()
